@@ -63,7 +63,8 @@ YIds == IF Tier = "thorough" THEN 1..7 ELSE IF Tier = "tiny" THEN 1..2 ELSE 1..4
 YChoices == {<<c>> : c \in YIds}
             \cup {<<c1, c2>> : c1 \in YIds, c2 \in YIds}
             \cup (IF Tier = "thorough"
-                  THEN {<<c1, c2, c3>> : c1 \in 1..3, c2 \in 2..5, c3 \in {1, 5, 6}}
+                  THEN {<<c1, c2, c3>> : c1 \in 1..3, c2 \in 2..5, c3 \in {1, 5, 6}} \cup {<<1, 2, 3, 4>>, <<4, 4, 2, 1, 3>>}
+                  ELSE IF Tier = "quick" THEN {<<1, 2, 3>>, <<2, 2, 4>>, <<3, 1, 2, 4>>}
                   ELSE {})
 YMat(cols, N) == [i \in 1..N |-> [s \in 1..Len(cols) |-> YCol(cols[s], N)[i]]]
 
